@@ -182,8 +182,7 @@ func ruleRevertController(c *core.Ctx) {
 	flow := astx.NewFlow(info, d.Decl.Body)
 	rev := callsTo(info, d.Decl.Body, named("RevertTransaction"))
 	com := callsTo(info, d.Decl.Body, named("CommitTransaction"))
-	if len(rev) != 1 || len(com) != 1 {
-		c.Fail("DOM/revert", key+":calls", pos(c, d.Decl), fmt.Sprintf("revertTransaction calls RevertTransaction %d times and CommitTransaction %d times, expected once each", len(rev), len(com)))
+	if !onceEach(c, d, "DOM/revert", key+":calls", "revertTransaction must mark the original reverted (RevertTransaction) and commit the reverse (CommitTransaction) once each", "RevertTransaction", "CommitTransaction") {
 		return
 	}
 	// already-reverted refusal right after the revert call
